@@ -48,11 +48,12 @@ def run(ctx, rep):
                 else:
                     exp = ([], [("method.oneway", ("const", "bool", True))])
                 got = ([(d["kind"], d["range"]) for d in pushes], assigns)
-                ok = got == exp and not other and (not iow or all(i[2] == "interface.elements" and "rev" not in i[3] for i in iters))
+                early = iteration_problems(p)
+                ok = got == exp and not other and not early and (not iow or all(i[2] == "interface.elements" and "rev" not in i[3] for i in iters))
                 if iow:
                     ok = ok and len(iters) == 1
                 rep.check(ok, "T1", "C10|T1|%s" % key, pushes[0]["where"] if pushes else cfg.where(fn),
-                          "cell (%s): expected diagnostics %r and assignments %r, extracted %r, other effects %r" % (key, exp[0], exp[1], got, other),
+                          "cell (%s): expected diagnostics %r and assignments %r, extracted %r, other effects %r%s" % (key, exp[0], exp[1], got, other, ("; " + "; ".join(early)) if early else ""),
                           witness={"interface_oneway": iow, "member": elname, "method_oneway": mow},
                           sample={"cell": key, "diagnostics": repr(got[0]), "assignments": repr(got[1])})
     rep.floor("T1", "propagation cells", cells, 6)
@@ -131,6 +132,8 @@ def run(ctx, rep):
         rep.check(ok and len(between) == 1, "T3", "C10|T3|guard", cfg.where(clo, body["blocks"][site]["term"]),
                   "set_up_oneway_interface is guarded by exactly one test: the item is an interface (found switches on %r)" % (descr,),
                   sample={"guards": repr(descr)})
+    import common_g
+    rep.floor("IN", "grammar actions feeding this rule", common_g.emit_inputs(ctx, rep, "C10"), 5)
     rep.assumptions += ["TB-1 rustc MIR", "TB-4 tabulator", "iterator chain modelled for one generic element: iter_mut/filter_map/for_each visit every element once in order (std)"]
     import common_g
     n, _ = common_g.emit(ctx, rep, "C10", {"oneway"}, "T4")
